@@ -1,7 +1,7 @@
 //! Position workload shared by the monitors: roots, crafted families, random placements, walks.
 
-use refmodel::rng::Rng;
-use refmodel::*;
+use crate::rng::Rng;
+use crate::*;
 
 /// R1: the FENs of the repository's perft suite, CPW perft positions, and hand-picked classics
 /// for e.p. / pins / castling / promotion / double check.
